@@ -28,7 +28,7 @@ Configs ==
       /\ (c.kind # "exp" => c.r = 0 /\ c.comp = FALSE)
       /\ (OnlySane => Sane(c))}
 
-XCs(c) == IF c.kind = "bern" THEN {"zero", "frac", "one"} ELSE {"zero", "pos"}
+XCs(c) == CASE c.kind = "bern" -> {"zero", "frac", "one"} [] c.kind = "pint" -> {"zero", "pos", "tiny"} [] OTHER -> {"zero", "pos"}
 
 Init == \E c \in Configs : \E xc \in XCs(c) : \E on \in OnSet : \E e \in EncInit(c, xc, on) :
           st = [cfg |-> c, xc |-> xc, on |-> on, enc |-> e]
@@ -46,6 +46,7 @@ Ras == EncRaster(st.cfg, st.enc)
 (***************************************************************************)
 Length == Final => AbsLength(st.cfg, Ras)
 SilentAtZero == Final => AbsSilent(st.xc, Ras)
+NoForcedSpike == Final => AbsNoForced(st.xc, Ras)
 \* inside the quantifier (refrac None / dt / k*dt, frequency*refrac < 1000 when compensated)
 MinGap == (Final /\ Sane(st.cfg)) => AbsMinGap(st.cfg, Ras)
 \* the same clause without the guard: TLC refutes it for refractory periods that are not a
@@ -78,6 +79,12 @@ Witness(c, ras, i, prev) ==
   ELSE IF ras[i] = 1 THEN <<((i - 1) - prev) * c.D>> \o Witness(c, ras, i + 1, i - 1)
   ELSE Witness(c, ras, i + 1, prev)
 
+RECURSIVE PWitness(_, _, _, _)
+\* pint: raster index i is row i; one draw per gap
+PWitness(c, ras, i, prev) ==
+  IF i > c.S THEN <<>>
+  ELSE IF ras[i] = 1 THEN <<i - prev>> \o PWitness(c, ras, i + 1, i) ELSE PWitness(c, ras, i + 1, prev)
+
 Pad(c, ds) == ds \o [j \in 1..(NDraws(c) - Len(ds)) |-> INF(c)]
 
 AllRasters(S) == [1..S -> {0, 1}]
@@ -93,6 +100,18 @@ Complete ==
              /\ Len(w) <= NDraws(c)
              /\ \A j \in 1..Len(w) : w[j] \in Draws(c, "pos", FALSE)
              /\ OffRaster(c, RunOff(c, OffInit(c), Pad(c, w))) = ras
+
+\* tightness of the offline Poisson-interval schedules: every raster is reachable at a positive
+\* rate (in particular the last step is not forced to spike)
+PintComplete ==
+  (TLCGet("level") = 1 /\ st.cfg.kind = "pint" /\ ~st.on /\ st.xc = "pos") =>
+     \A ras \in [1..st.cfg.S -> {0, 1}] :
+        LET c == st.cfg
+            w == PWitness(c, ras, 1, 0)
+            pad == w \o [j \in 1..(NDraws(c) - Len(w)) |-> INF(c)]
+        IN /\ Len(w) <= NDraws(c)
+           /\ \A j \in 1..Len(w) : w[j] \in Draws(c, "pos", FALSE)
+           /\ OffRaster(c, RunOff(c, OffInit(c), pad)) = ras
 
 \* every finished raster, for the tightness report of the harness (which rasters the real
 \* encoder was seen to produce among those the specification allows)
